@@ -8,6 +8,8 @@ use crate::redisx::*;
 use crate::rng::Rng;
 use crate::Args;
 use redis_sim::redis::{Command, SDS};
+#[allow(unused_imports)]
+use crate::redisx::payload;
 
 fn s(x: &str) -> SDS {
     SDS::from_str(x)
@@ -16,33 +18,42 @@ fn k(x: &str) -> String {
     x.to_string()
 }
 
-/// two-key / multi-element commands outside the modelled families: oracle only
-fn gen_unmodelled_fault(rng: &mut Rng) -> Command {
+/// commands outside the modelled families (bitmaps, float counters, SORT, scans, object/debug
+/// stubs, server commands, internal batch commands): snapshot oracle only
+fn gen_unmodelled(rng: &mut Rng) -> Command {
     let a = key(rng);
     let b = key(rng);
-    match rng.below(12) {
-        0 | 1 => Command::RPopLPush(a, b),
-        2 | 3 => Command::LMove {
-            source: a,
-            dest: b,
-            wherefrom: rng.pick(&["LEFT", "RIGHT"]).to_string(),
-            whereto: rng.pick(&["LEFT", "RIGHT"]).to_string(),
-        },
-        4 => Command::HIncrBy(a, payload(rng), *rng.pick(&[1, i64::MAX, i64::MIN])),
-        5 => Command::LSet(a, rng.below(9) as isize - 4, payload(rng)),
-        6 => Command::SetBit(a, rng.below(20), rng.below(2) as u8),
-        7 => Command::IncrByFloat(a, 1.0),
-        8 => Command::Sort { key: a, store: Some(b) },
-        9 => Command::LPush(a, vec![payload(rng), payload(rng)]),
-        10 => Command::SAdd(a, vec![payload(rng), payload(rng)]),
-        _ => Command::HSet(a, vec![(payload(rng), payload(rng)), (payload(rng), payload(rng))]),
+    match rng.below(24) {
+        0 => Command::SetBit(a, rng.below(20), rng.below(2) as u8),
+        1 => Command::GetBit(a, rng.below(20)),
+        2 => Command::IncrByFloat(a, *rng.pick(&[1.0, -0.5, 1e308])),
+        3 | 4 => Command::Sort { key: a, store: if rng.chance(1, 2) { Some(b) } else { None } },
+        5 => Command::BatchGet(vec![a, b]),
+        6 => Command::BatchSet(vec![(a, payload(rng)), (b, payload(rng))]),
+        7 => Command::Scan { cursor: 0, pattern: None, count: Some(3) },
+        8 => Command::HScan { key: a, cursor: 0, pattern: None, count: None },
+        9 => Command::ZScan { key: a, cursor: 0, pattern: None, count: None },
+        10 => Command::ObjectEncoding(a),
+        11 => Command::ObjectRefCount(a),
+        12 => Command::ObjectIdleTime(a),
+        13 => Command::ObjectFreq(a),
+        14 => Command::DebugObject(a),
+        15 => Command::Info,
+        16 => Command::Ping(None),
+        17 => Command::Echo(payload(rng)),
+        18 => Command::Time,
+        19 => Command::Wait(0, 0),
+        20 => Command::ConfigGet("*".into()),
+        21 => Command::Keys(rng.pick(&["a*", "?", "[a-c]", "k?", "*é"]).to_string()),
+        22 => Command::CommandCount,
+        _ => Command::Unknown("FOO".into()),
     }
 }
 
 fn gen(rng: &mut Rng, now: u64) -> Command {
     match rng.below(10) {
         0..=1 => gen_other_type_cmd(rng),
-        2..=3 => gen_unmodelled_fault(rng),
+        2 => gen_unmodelled(rng),
         _ => gen_cmd(rng, now),
     }
 }
